@@ -98,6 +98,9 @@ def vto_tp(n, tp):
     if k == "translate":
         return Translate(vto_tp(n.kids[0], tp), n.pfs[0].py())
     if k == "rotate":
+        if len(n.pfs[0].terms) == 9:      # 3-D: constant 3x3 matrix
+            m = [float(geomgen.pt_eval(t, {})) for t in n.pfs[0].terms]
+            return Rotate(vto_tp(n.kids[0], tp), [m[0:3], m[3:6], m[6:9]], n.pfs[1].py())
         return Rotate(vto_tp(n.kids[0], tp), n.pfs[0].py(matrix=True), n.pfs[1].py())
     if k == "bdry":
         return vto_tp(n.kids[0], tp).boundary
@@ -266,6 +269,16 @@ ROTS = [(Fr(3, 5), Fr(4, 5)), (Fr(4, 5), Fr(3, 5)), (Fr(0), Fr(1)), (Fr(5, 13), 
         (Fr(-1), Fr(0)), (Fr(-4, 5), Fr(-3, 5)), (Fr(8, 17), Fr(-15, 17))]
 
 
+# 3x3 matrices with determinant +-1: axis permutations, rational rotations about an axis, a rational rotation about the
+# diagonal-free axis (2/3, 2/3, 1/3)-type matrix, a reflection
+ROTS3 = [[Fr(0), Fr(-1), Fr(0), Fr(1), Fr(0), Fr(0), Fr(0), Fr(0), Fr(1)],
+         [Fr(0), Fr(0), Fr(1), Fr(1), Fr(0), Fr(0), Fr(0), Fr(1), Fr(0)],
+         [Fr(3, 5), Fr(-4, 5), Fr(0), Fr(4, 5), Fr(3, 5), Fr(0), Fr(0), Fr(0), Fr(1)],
+         [Fr(1), Fr(0), Fr(0), Fr(0), Fr(5, 13), Fr(-12, 13), Fr(0), Fr(12, 13), Fr(5, 13)],
+         [Fr(2, 3), Fr(-1, 3), Fr(2, 3), Fr(2, 3), Fr(2, 3), Fr(-1, 3), Fr(-1, 3), Fr(2, 3), Fr(2, 3)],
+         [Fr(1), Fr(0), Fr(0), Fr(0), Fr(1), Fr(0), Fr(0), Fr(0), Fr(-1)]]
+
+
 class VGen:
     def __init__(self, rng, params):
         self.rng, self.params = rng, params
@@ -283,6 +296,9 @@ class VGen:
 
     def motion(self, node, var):
         rng = self.rng
+        if geomgen.DIM[var] == 3 and rng.random() < 0.45:
+            m = rng.choice(ROTS3)
+            return Node("rotate", var, [PF([c(x) for x in m]), PF([c(dy(rng, -1, 1)) for _ in range(3)])], [node])
         if geomgen.DIM[var] == 2 and rng.random() < 0.5:
             co, si = rng.choice(ROTS)
             refl = rng.random() < 0.15          # improper rotations (det = -1) preserve the measure as well
